@@ -126,6 +126,7 @@ TEval ==
          newcall == [pid |-> Ev.pid, uid |-> Ev.uid, yR |-> Ev.yR, sdR |-> Ev.sdR,
                      kind |-> Ev.kind, rec |-> Ev.rec]
          faultexp == IF Ev.fault = "exception" THEN "InjectedTargetError"
+                     ELSE IF Ev.fault = "exception2" THEN "InjectedTargetError2"
                      ELSE "ValueError"
          st2   == [st EXCEPT !.nev = st.nev + 1,
                              !.rem = IF ispoll THEN st.rem \ {d} ELSE st.rem]
@@ -154,7 +155,7 @@ TEval ==
                     => Ev.n <= s.budgetEff, "C03.budget_respected")
         \cup Chk(~s.faulted, "C10.no_call_after_fault")
         \cup Chk(Ev.fault # "" => Ev.outcome = faultexp,
-                 IF Ev.fault = "exception" THEN "C10.same_exception_type"
+                 IF Ev.fault \in {"exception", "exception2"} THEN "C10.same_exception_type"
                  ELSE "C10.invalid_value_is_valueerror")
         \cup Chk(~ok => Ev.nlogged = s.nlog, "C10.nothing_invalid_logged")
         \cup Chk((ok /\ Ev.fault = "") => Ev.retok, "C12.returned_value_is_observed")
@@ -556,12 +557,13 @@ TCrash ==
   /\ IsEv("Crash")
   /\ LET n == Len(s.calls)
          inj == s.injected # ""
-         exptype == IF s.injected = "exception" THEN "InjectedTargetError" ELSE "ValueError"
+         exptype == IF s.injected = "exception" THEN "InjectedTargetError"
+                    ELSE IF s.injected = "exception2" THEN "InjectedTargetError2" ELSE "ValueError"
      IN Step([s EXCEPT !.phase = "crashed", !.ended = "crash"],
              Chk(inj \/ Ev.type = "NonProgress", "C09.no_crash")
         \cup Chk(Ev.type # "NonProgress", "C03.non_progress_bounded")
         \cup Chk(inj => Ev.type = exptype,
-                 IF s.injected = "exception" THEN "C10.same_exception_type"
+                 IF s.injected \in {"exception", "exception2"} THEN "C10.same_exception_type"
                  ELSE "C10.invalid_value_is_valueerror")
         \cup Chk(inj => (Ev.fc = n /\ Ev.ncalls = n + 1), "C10.count_only_valid")
         \cup Chk(inj => (Ev.loggedfinite /\ Ev.nlog <= n), "C10.nothing_invalid_logged"))
